@@ -136,7 +136,7 @@ Proof.
   - cbn. rewrite andb_true_r. apply Z.eqb_eq in E0. unfold is_permb. rewrite E0.
     destruct order; [|unfold zlen in E0; cbn in E0; lia]. cbn. now rewrite andb_true_r.
   - cbn in Hone. rewrite Hone. okb. rewrite np_transpose_ok_nonneg by auto.
-    unfold is_permb. rewrite (Z.eqb_sym (ndim s)). now rewrite <- andb_assoc, andb_diag.
+    unfold is_permb. rewrite (Z.eqb_sym (ndim s)). now rewrite andb_assoc, andb_diag.
 Qed.
 
 (* the rejection half holds without side condition on the all-ones shortcut only for the length test *)
@@ -205,9 +205,9 @@ Theorem tensor_contract_accepts_2way s i1 i2 : ndim s = 2 ->
   pre_tensor_contract s i1 i2 = true -> guard_tensor_contract s i1 i2 = Ok tt.
 Proof.
   intros HN Hp. unfold guard_tensor_contract, pre_tensor_contract in *.
-  repeat (apply andb_true_iff in Hp as [Hp ?]).
+  apply andb_true_iff in Hp as [Hp Hsz]. apply andb_true_iff in Hp as [Hp Hne]. apply andb_true_iff in Hp as [Hr1 Hr2].
   assert (0 <= i1 /\ 0 <= i2) as [A B].
-  { unfold in_range in *. apply andb_true_iff in Hp as [Hp _]. apply andb_true_iff in H1 as [H1 _].
-    apply Z.leb_le in Hp, H1. lia. }
-  rewrite !np_idx_ok_nonneg, !szw_nonneg by auto. rewrite Hp, H1, H, H0. cbn. now rewrite HN.
+  { unfold in_range in *. apply andb_true_iff in Hr1 as [Hr1 _]. apply andb_true_iff in Hr2 as [Hr2 _].
+    apply Z.leb_le in Hr1, Hr2. lia. }
+  rewrite !np_idx_ok_nonneg, !szw_nonneg by auto. rewrite Hr1, Hr2, Hsz, Hne. cbn. now rewrite HN.
 Qed.
